@@ -131,6 +131,10 @@ fn view_optional_absent_and_identifier() {
     let (mut rid, (mut ra, (mut rb, (mut rc, _)))) =
         unsafe { t.view::<Views!(entity::Identifier, &VA, Option<&mut VB>, &mut VC), _>() };
     let ids = [i0, i1];
+    // the per-column iterators know the exact number of rows left (unit qiter assumes an exact
+    // size_hint of the per-table row iterator, which is std's Zip of these: min of the bounds)
+    assert!(rid.size_hint() == (2, Some(2)) && ra.size_hint() == (2, Some(2)) && rb.size_hint() == (2, Some(2)) && rc.size_hint() == (2, Some(2)),
+            "C03: every column iterator of a 2-row table reports exactly 2 remaining items");
     let mut r = 0;
     let mut seen = [false; 2];
     while r < 2 {
@@ -142,7 +146,20 @@ fn view_optional_absent_and_identifier() {
         assert!(row_of(rc.next().unwrap() as *mut VC as *const VC, cc) == k, "C03: absent optional component consumes no column (same row)");
         r += 1;
     }
+    assert!(rid.size_hint() == (0, Some(0)) && ra.size_hint() == (0, Some(0)) && rb.size_hint() == (0, Some(0)) && rc.size_hint() == (0, Some(0)),
+            "C03: exhausted column iterators report 0 remaining items");
     assert!(rid.next().is_none() && ra.next().is_none() && rb.next().is_none() && rc.next().is_none());
+}
+
+/// the empty view list: the row iterator of `Views!()` still has one (empty) result per row
+#[kani::proof]
+#[kani::unwind(5)]
+fn view_null_has_one_result_per_row() {
+    let mut alloc = entity::Allocator::<V3>::new();
+    let (mut t, _) = full_table(&mut alloc);
+    let mut it = unsafe { t.view::<Views!(), _>() };
+    assert!(it.size_hint() == (2, Some(2)), "C03: the empty view list has one result per row (exact size_hint)");
+    assert!(it.next().is_some() && it.next().is_some() && it.next().is_none(), "C03: exactly one result per row");
 }
 
 /// single-entity path (World::entry / Entries): view_row_unchecked picks that row's cells
